@@ -279,6 +279,21 @@ def rule_r6(ctx):
                 continue
             val = t.fields.get("value")
             if not (isinstance(val, TNode) and val.kind == "Name" and isinstance(val.fields.get("id"), Fresh)):
+                # an element of a pattern read from something that is not a tuple() snapshot
+                sl0 = t.fields.get("slice")
+                idx_terms = _sym_terms(sl0) if not (isinstance(sl0, TNode) and sl0.kind == "Slice") else _sym_terms(sl0.fields.get("lower"))
+                if getattr(t, "func", "") == "assign_tuple_list" and idx_terms is not None and idx_terms[0] != 0:
+                    key = ("element-base", t.site)
+                    if key not in seen:
+                        seen.add(key)
+                        rr.instances += 1
+                    from ..tmpl import show
+
+                    rr.fail(
+                        "C13-R6|Assign|element-not-from-snapshot",
+                        f"PendingAssign.assign_tuple_list ({t.site}): an element of a (nested) pattern is read as `{show(t, maxdepth=3)[:70]}`, i.e. by indexing an expression, not the tuple(<source>) snapshot of that pattern: Python unpacks by ITERATING the source (`k, (p, q) = 'k', {{0: 'zero', 1: 'one'}}` must bind the keys; generators, sets, maps are not indexable)",
+                        where=t.site, what=f"destructure|element-base|{t.site}",
+                    )
                 continue
             sl = t.fields.get("slice")
             if isinstance(sl, TNode) and sl.kind == "Slice":
